@@ -171,6 +171,9 @@ def run(prog, rep, tier, cfg):
     X.guard('K6b', 'constructor:threshold>=1', K, cr, m_rel('lt', ['F:ConstructorParams.num_approvals_threshold'], ['V:1'], False), 'threshold < 1 => Err')
     X.guard('K6b', 'constructor:dedup', K, [x.bb for x in K.calls if (x.callee or '').endswith('Vec::<T, A>::push')],
             m_pred('BTreeSet::<T, A>::insert', [], True), 'duplicate signer => Err')
+    # ---- error discipline: no Result produced in these crates is silently discarded
+    X.no_dropped_results('K14', 'results-not-discarded', ['fil_actor_multisig'], 'no Result of a call is discarded')
+
 
 
 def caller_gates(prog, rep, X, prefix=''):
